@@ -17,7 +17,7 @@ import torch
 import torch.nn as nn
 
 DEFAULTS = {"ins": [], "out": 0, "k": 1, "d": 1, "s": 1, "bias": True, "bn": False, "dw": False,
-            "excl": False, "causal": False, "reuse": 0}
+            "excl": False, "causal": False, "reuse": 0, "valid": False, "pm": "zeros"}
 
 
 def norm_node(n: Dict[str, Any]) -> Dict[str, Any]:
@@ -39,8 +39,12 @@ def shapes(arch) -> List[Dict[str, int]]:
         i0 = sh[n["ins"][0]]
         op = n["op"]
         if op == "conv":
-            sp = (i0["sp"] - 1) // n["s"] + 1
-            spw = (i0["spw"] - 1) // n["s"] + 1 if arch["dim"] == 2 else 1
+            if n["valid"]:        # un-padded convolution: the output shrinks by d*(k-1)
+                sp = (i0["sp"] - n["d"] * (n["k"] - 1) - 1) // n["s"] + 1
+                spw = (i0["spw"] - n["d"] * (n["k"] - 1) - 1) // n["s"] + 1 if arch["dim"] == 2 else 1
+            else:
+                sp = (i0["sp"] - 1) // n["s"] + 1
+                spw = (i0["spw"] - 1) // n["s"] + 1 if arch["dim"] == 2 else 1
             sh.append({"ch": i0["ch"] if n["dw"] else n["out"], "sp": sp, "spw": spw, "flat": False})
         elif op == "lin":
             sh.append({"ch": n["out"], "sp": 1, "spw": 1, "flat": True})
@@ -85,19 +89,24 @@ class GrammarNet(nn.Module):
                 cout = cin if n["dw"] else n["out"]
                 groups = cin if n["dw"] else 1
                 k, d, s = n["k"], n["d"], n["s"]
+                pm = n["pm"]
                 if dim == 1:
-                    if n["causal"]:
+                    if n["valid"]:
+                        conv = nn.Conv1d(cin, cout, k, stride=s, padding=0, dilation=d, groups=groups, bias=n["bias"])
+                    elif n["causal"]:
                         self.layers[lname(idx) + "_pad"] = nn.ConstantPad1d(((k - 1) * d, 0), 0.0)
                         names.append(lname(idx) + "_pad")
                         conv = nn.Conv1d(cin, cout, k, stride=s, padding=0, dilation=d, groups=groups, bias=n["bias"])
                     else:
                         if s != 1:
                             raise ValueError("non-causal strided conv1d not generated")
-                        conv = nn.Conv1d(cin, cout, k, stride=1, padding="same", dilation=d, groups=groups, bias=n["bias"])
+                        conv = nn.Conv1d(cin, cout, k, stride=1, padding="same", dilation=d, groups=groups, bias=n["bias"],
+                                         padding_mode=pm)
                 else:
-                    if k % 2 == 0 or d != 1:
-                        raise ValueError("2-D convs are generated with odd kernels and dilation 1")
-                    conv = nn.Conv2d(cin, cout, k, stride=s, padding=k // 2, groups=groups, bias=n["bias"])
+                    if k % 2 == 0:
+                        raise ValueError("2-D convs are generated with odd kernels")
+                    conv = nn.Conv2d(cin, cout, k, stride=s, padding=0 if n["valid"] else d * (k // 2), dilation=d,
+                                     groups=groups, bias=n["bias"], padding_mode="zeros" if n["valid"] else pm)
                 self.layers[lname(idx)] = conv
                 names.append(lname(idx))
                 if n["bn"]:
